@@ -26,7 +26,7 @@
 //! answered `diags=? end=hang` / `diags=? end=abort:<status>` (`viol=? end=…` for `wf`) and reported as
 //! `ORACLE-FAIL <line> [C07] …`; the stream continues in a fresh worker. `run --inproc`: no isolation.
 //!
-//! Other actions: `gen --seed S --n N --kind valid|viol|mixed|rec|findings`, `mk` (source lines on stdin
+//! Other actions: `gen --seed S --n N --kind valid|viol|mixed|rec|ret|findings`, `mk` (source lines on stdin
 //! -> request lines), `probe-types` (prints the probed static type tables).
 
 #[path = "factsio.rs"]
@@ -611,6 +611,37 @@ pub fn dump_tables(out: &mut Vec<(String, String)>) {
     out.push(("resolve_root_locals_len_probe".into(), len.to_string()));
     let leak = !has(&probe("jasi (true) start do f() start comot end end"), "Unreachable code");
     out.push(("resolve_in_loop_leaks_into_functions".into(), leak.to_string()));
+    // return-type inference (D-09b): around `do f(<params>) start <body> end  shout(f(..) minus 1)` the enclosing
+    // code declares a string `x` and a function `g` returning a string; is the use rejected, i.e. is the
+    // result of `f` typed by the enclosing `x` / `g`?
+    const RET_PROBES: &[(&str, &str, &str, &str, &str)] = &[
+        // (tag, parameters, body, defining block before, defining block after)
+        ("own-make", "", "make x get 1 return x", "", ""),
+        ("parameter", "x", "return x", "", ""),
+        ("nested-block-make", "", "if to say (true) start make x get 1 end return x", "", ""),
+        ("make-after-return", "", "if to say (false) start return x end make x get 1", "", ""),
+        ("block-make-before", "", "return x", "make x get 1\n", ""),
+        ("block-make-after", "", "return x", "", "make x get 1\n"),
+        ("own-function", "", "do g() start return 1 end return g()", "", ""),
+        ("nested-block-function", "", "if to say (true) start do g() start return 1 end end return g()", "", ""),
+        // controls: only the enclosing code binds the name (a nested function's bindings are not `f`'s)
+        ("enclosing-variable", "", "return x", "", ""),
+        ("enclosing-function", "", "return g()", "", ""),
+        ("inner-function-make", "", "do inner() start make x get 1 end return x", "", ""),
+        ("inner-function-parameter", "", "do inner(x) start end return x", "", ""),
+        ("inner-function-function", "", "do inner() start do g() start return 1 end end return g()", "", ""),
+    ];
+    let probes: Vec<String> = RET_PROBES
+        .iter()
+        .map(|(tag, params, body, pre, post)| {
+            let call = if params.is_empty() { "f()" } else { "f(1)" };
+            let src = format!(
+                "make x get \"s\"\ndo g() start return \"s\" end\nstart\n{pre}do f({params}) start {body} end\nshout({call} minus 1)\n{post}end"
+            );
+            format!("[\"{tag}\",{}]", has(&probe(&src), "Type mismatch"))
+        })
+        .collect();
+    out.push(("resolve_return_type_probes".into(), format!("[{}]", probes.join(","))));
 }
 
 const GLOBAL_NAMES: &[&str] = &["shout", "typeof", "read_line", "to_string", "command"];
@@ -1330,17 +1361,142 @@ pub(crate) fn gen_rec_program(rng: &mut Rng, callable: bool) -> String {
     }
 }
 
-/// Witnesses of the known defects D-09b/c/d, each under a little random context.
+/// Static result types of functions (fix D-09b): a function whose `return` names a variable or calls a
+/// function that the function itself binds (parameter, `make` / definition anywhere in its body — also
+/// in a nested block, after the `return`, but NOT inside a nested function), that its defining block
+/// declares (before or after the definition), or that only the enclosing code declares; the result is
+/// used in a typed position inside the defining block (before or after the definition). The expectation
+/// comes from the documented rule alone: a name the function or its defining block may bind is dynamic, a
+/// name only the enclosing code binds has the declared type it has at the entry of the defining block;
+/// all `return`s agreeing give that type, otherwise dynamic.
+pub(crate) fn gen_ret_program(rng: &mut Rng) -> (String, String) {
+    #[derive(Clone, Copy, PartialEq, Eq)]
+    enum T {
+        Num,
+        Str,
+        Bool,
+        Arr,
+        Dyn,
+    }
+    const LITS: &[(T, &str)] = &[(T::Num, "1"), (T::Str, "\"s\""), (T::Bool, "true"), (T::Arr, "[1]"), (T::Num, "2.5"), (T::Str, "\"\"")];
+    let v = *rng.pick(&["x", "acc", "n"]);
+    let f = *rng.pick(&["f", "mk", "get"]);
+    let g = *rng.pick(&["g", "h"]);
+    let lit = |rng: &mut Rng| *rng.pick(LITS);
+    // what the enclosing code (a block around the defining block) declares
+    let (t_out, l_out) = lit(rng);
+    let (t_gout, l_gout) = lit(rng);
+    // the defining block: the root itself (then the "outer" declarations are its own), or nested
+    let ctx = rng.below(6);
+    let nested = ctx != 0;
+    let mut block: Vec<String> = Vec::new(); // statements of the defining block
+    // does the defining block declare `v` itself — before the definition, or after it and its use?
+    let early_make = nested && rng.chance(1, 5);
+    let late_make = nested && !early_make && rng.chance(1, 5);
+    let own_make = !nested || early_make || late_make;
+    if early_make {
+        block.push(format!("make {v} get {}", lit(rng).1));
+    }
+    let mut t_g = t_gout;
+    if nested && rng.chance(1, 5) {
+        // the defining block defines `g` itself: simply visible, with its own type
+        let (t, l) = lit(rng);
+        block.push(format!("do {g}() start return {l} end"));
+        t_g = t;
+    }
+    // the function
+    let shape = rng.below(14);
+    let (params, mut body, mut t_ret): (&str, Vec<String>, T) = match shape {
+        // not bound by the function: the enclosing declaration decides (dynamic if the defining block declares it)
+        0 | 1 => ("", vec![format!("return {v}")], if own_make { T::Dyn } else { t_out }),
+        // own local, parameter
+        2 => ("", vec![format!("make {v} get {}", lit(rng).1), format!("return {v}")], T::Dyn),
+        3 => (v, vec![format!("return {v}")], T::Dyn),
+        // `make` in a nested block / after the `return` / in a loop body of the function body
+        4 => ("", vec![format!("if to say (true) start make {v} get {} end", lit(rng).1), format!("return {v}")], T::Dyn),
+        5 => ("", vec![format!("if to say (false) start return {v} end"), format!("make {v} get {}", lit(rng).1)], T::Dyn),
+        6 => ("", vec![format!("jasi (false) start make {v} get {} end", lit(rng).1), format!("return {v}")], T::Dyn),
+        // bindings inside a NESTED function are not the function's own
+        7 => ("", vec![format!("do inner() start make {v} get {} return {v} end", lit(rng).1), format!("return {v}")], if own_make { T::Dyn } else { t_out }),
+        8 => ("", vec![format!("do inner({v}) start return {v} end"), format!("return {v}")], if own_make { T::Dyn } else { t_out }),
+        // calls: the enclosing function, an own function of the same name (also in a nested block), one inside a nested function
+        9 => ("", vec![format!("return {g}()")], t_g),
+        10 => ("", vec![format!("do {g}() start return {} end", lit(rng).1), format!("return {g}()")], T::Dyn),
+        11 => ("", vec![format!("if to say (true) start do {g}() start return {} end end", lit(rng).1), format!("return {g}()")], T::Dyn),
+        12 => ("", vec![format!("do inner() start do {g}() start return {} end end", lit(rng).1), format!("return {g}()")], t_g),
+        // typed by the expression around the name
+        _ => {
+            let (e, t) = match rng.below(4) {
+                0 => (format!("\"<{{{v}}}>\""), T::Str),
+                1 => (format!("to_string({v})"), T::Str),
+                2 => (format!("[{v}]"), T::Arr),
+                _ => (format!("[{v}][0]"), T::Dyn),
+            };
+            ("", vec![format!("return {e}")], t)
+        }
+    };
+    // a second `return` of a literal type: the common type, or dynamic
+    if rng.chance(1, 4) {
+        let (t2, l2) = lit(rng);
+        body.insert(0, format!("if to say (false) start return {l2} end"));
+        if t2 != t_ret {
+            t_ret = T::Dyn;
+        }
+    }
+    let def = format!("do {f}({params}) start\n{}\nend", body.join("\n"));
+    let call = if params.is_empty() { format!("{f}()") } else { format!("{f}({})", lit(rng).1) };
+    // the use, with what the documented tables say for the static type `t_ret`
+    let (use_, ok, rule): (String, bool, &str) = match rng.below(9) {
+        0 => (format!("shout({call} minus 1)"), matches!(t_ret, T::Num | T::Dyn), "tyBinary"),
+        1 => (format!("shout({call} add \"s\")"), matches!(t_ret, T::Num | T::Str | T::Dyn), "tyBinary"),
+        2 => (format!("shout({call} and true)"), matches!(t_ret, T::Bool | T::Dyn), "tyBinary"),
+        3 => (format!("shout({call}[0])"), matches!(t_ret, T::Arr | T::Dyn), "tyIndexBase"),
+        4 => (format!("shout([1, 2][{call}])"), matches!(t_ret, T::Num | T::Dyn), "tyIndexIdx"),
+        5 => (format!("if to say ({call}) start shout(1) end"), matches!(t_ret, T::Bool | T::Dyn), "tyCond"),
+        6 => (format!("shout({call}.len())"), matches!(t_ret, T::Str | T::Arr | T::Dyn), "methodUnknown"),
+        7 => (format!("shout(not {call})"), matches!(t_ret, T::Bool | T::Dyn), "tyUnary"),
+        _ => (format!("shout(minus {call})"), matches!(t_ret, T::Num | T::Dyn), "tyUnary"),
+    };
+    if rng.chance(1, 3) {
+        block.push(use_);
+        block.push(def);
+    } else {
+        block.push(def);
+        block.push(use_);
+    }
+    if late_make {
+        block.push(format!("make {v} get {}", lit(rng).1));
+    }
+    let core = block.join("\n");
+    let outer = format!("make {v} get {l_out}\ndo {g}() start return {l_gout} end");
+    let src = match ctx {
+        0 => format!("{outer}\n{core}"),
+        1 => format!("{outer}\nstart\n{core}\nend"),
+        2 => format!("{outer}\nif to say (true) start\n{core}\nend"),
+        3 => format!("{outer}\nmake i get 0\njasi (i small pass 1) start\ni get i add 1\n{core}\nend"),
+        4 => format!("{outer}\ndo outer() start\nstart\n{core}\nend\nend\nouter()"),
+        _ => format!("{outer}\nstart\nstart\n{core}\nend\nend"),
+    };
+    let exp = if ok { "ok".to_string() } else { format!("{rule}@ret:use") };
+    (src, exp)
+}
+
+/// Witnesses of the defects D-09c/d/e (all fixed: a recurrence is a violation) and of D-09f (open), each
+/// under a little random context. The witnesses of D-09b (fixed) are ordinary cases of `corpus/C09/seeds.src`, and
+/// the `ret` stream (`gen_ret_program`) generates their whole family with expectations.
 fn finding(rng: &mut Rng, i: u64) -> (String, String) {
     let v = ["x", "v", "acc"][rng.below(3) as usize];
     let f = ["f", "get", "mk"][rng.below(3) as usize];
     let pre = ["", "make z get 1\n", "do unused() start end\n"][rng.below(3) as usize];
-    let (tag, body) = match i % 15 {
-        12 => ("D-09e:unary-dynamic:reject", format!("do {f}({v}) start return 1 minus (minus {v}) end\nshout({f}(1))")),
-        13 => ("D-09e:unary-dynamic:reject", format!("do {f}({v}) start return true and (not {v}) end\nshout({f}(true))")),
-        14 => ("D-09e:unary-dynamic:reject", format!("do {f}({v}) start return [1, 2][minus {v}] end\nshout({f}(minus 1))")),
-        0 => ("D-09b:return-type-scope:reject", format!("make {v} get \"s\"\nstart\ndo {f}() start make {v} get 1 return {v} end\nshout({f}() minus 1)\nend")),
-        1 => ("D-09b:return-type-scope:accept", format!("make {v} get 1\nstart\ndo {f}() start make {v} get \"s\" return {v} end\nshout({f}() minus 1)\nend")),
+    let (tag, body) = match i % 14 {
+        0 => ("D-09e:unary-dynamic:reject", format!("do {f}({v}) start return 1 minus (minus {v}) end\nshout({f}(1))")),
+        1 => ("D-09e:unary-dynamic:reject", format!("do {f}({v}) start return true and (not {v}) end\nshout({f}(true))")),
+        12 => ("D-09e:unary-dynamic:reject", format!("do {f}({v}) start return [1, 2][minus {v}] end\nshout({f}(minus 1))")),
+        // OPEN: the result type of `osc` alternates boolean / dynamic and the (two) rounds end with dynamic; in
+        // the last round `"s" add osc()` was typed with a boolean `osc`, which the operator table rejects, yet
+        // `infer_expr_type` answers string for it: `{f}` is held to be a string and `{f}() minus 1` is rejected
+        // although no documented rule is broken (an expression without a static type is dynamic)
+        13 => ("D-09f:recovery-type:reject", format!("start\ndo {f}() start return \"s\" add osc() end\ndo osc() start return osc() na 1 end\nshout({f}() minus 1)\nend")),
         2 => ("D-09c:method-literal-arg:accept", "shout(\"abc\".find(5))".to_string()),
         3 => ("D-09c:method-literal-arg:accept", "shout(\"abc\".slice(\"a\", 1))".to_string()),
         4 => ("D-09c:method-literal-arg:accept", "shout(\"abc\".replace(1, \"b\"))".to_string()),
@@ -1385,6 +1541,10 @@ fn generate(args: &[String]) -> i32 {
             "findings" => {
                 let (tag, s) = finding(&mut rng, produced);
                 (s, Some(tag))
+            }
+            "ret" => {
+                let (s, exp) = gen_ret_program(&mut rng);
+                (s, Some(exp))
             }
             "rec" => {
                 // no expectation: these programs serve the tie and the totality oracle (C07)
